@@ -15,30 +15,30 @@ set_option linter.unusedSimpArgs false
 
 /-! ### paths -/
 
-/-- a path in a list of (resolved) edges: `Path G n w k` reads `w` from node `n` to node `k`; an edge with
+/-- a path in a list of (resolved) edges: `NPath G n w k` reads `w` from node `n` to node `k`; an edge with
     `term = none` reads nothing -/
-inductive Path (G : List NEdge) : Nat → List Nat → Nat → Prop
-  | nil (n : Nat) : Path G n [] n
+inductive NPath (G : List NEdge) : Nat → List Nat → Nat → Prop
+  | nil (n : Nat) : NPath G n [] n
   | cons {n m k : Nat} {w : List Nat} (ed : NEdge) (hmem : ed ∈ G) (hsrc : ed.src = n) (hto : ed.to = some m)
-      (rest : Path G m w k) : Path G n (ed.term.toList ++ w) k
+      (rest : NPath G m w k) : NPath G n (ed.term.toList ++ w) k
 
-theorem Path.mono {G G' : List NEdge} (h : ∀ ed, ed ∈ G → ed ∈ G') {n k : Nat} {w : List Nat}
-    (p : Path G n w k) : Path G' n w k := by
+theorem NPath.mono {G G' : List NEdge} (h : ∀ ed, ed ∈ G → ed ∈ G') {n k : Nat} {w : List Nat}
+    (p : NPath G n w k) : NPath G' n w k := by
   induction p with
   | nil n => exact .nil n
   | cons ed hmem hsrc hto _ ih => exact .cons ed (h ed hmem) hsrc hto ih
 
-theorem Path.trans {G : List NEdge} {n m k : Nat} {u v : List Nat}
-    (p : Path G n u m) (q : Path G m v k) : Path G n (u ++ v) k := by
+theorem NPath.trans {G : List NEdge} {n m k : Nat} {u v : List Nat}
+    (p : NPath G n u m) (q : NPath G m v k) : NPath G n (u ++ v) k := by
   induction p with
   | nil n => simpa using q
   | cons ed hmem hsrc hto _ ih =>
     rw [List.append_assoc]
     exact .cons ed hmem hsrc hto (ih q)
 
-theorem Path.single {G : List NEdge} (ed : NEdge) (hmem : ed ∈ G) {m : Nat} (hto : ed.to = some m) :
-    Path G ed.src ed.term.toList m := by
-  have := Path.cons (G := G) ed hmem rfl hto (.nil m)
+theorem NPath.single {G : List NEdge} (ed : NEdge) (hmem : ed ∈ G) {m : Nat} (hto : ed.to = some m) :
+    NPath G ed.src ed.term.toList m := by
+  have := NPath.cons (G := G) ed hmem rfl hto (.nil m)
   simpa using this
 
 /-! ### labellings -/
@@ -69,8 +69,8 @@ theorem EdgeOk.fill {lab : Nat → Language Nat} {K K' : Language Nat} {ed : NEd
 
 /-- if every edge respects the labelling and the target's label contains the empty word only … paths into
     `k` read words of the source's label -/
-theorem Path.sound {G : List NEdge} {lab : Nat → Language Nat} (hG : ∀ ed, ed ∈ G → EdgeOk lab 0 ed)
-    {n k : Nat} {w : List Nat} (p : Path G n w k) (hk : [] ∈ lab k) : w ∈ lab n := by
+theorem NPath.sound {G : List NEdge} {lab : Nat → Language Nat} (hG : ∀ ed, ed ∈ G → EdgeOk lab 0 ed)
+    {n k : Nat} {w : List Nat} (p : NPath G n w k) (hk : [] ∈ lab k) : w ∈ lab n := by
   induction p with
   | nil n => exact hk
   | cons ed hmem hsrc hto _ ih =>
@@ -108,9 +108,9 @@ theorem InB.fill {f b c : Nat} {ed : NEdge} (h : InB f b c ed) {x : Nat} (hx : b
 structure IsFrag (F : List NEdge) (from_ base c : Nat) (L : Language Nat) : Prop where
   bounds : ∀ ed, ed ∈ F → InB from_ base c ed
   ne : ∃ w, w ∈ L
-  complete : ∀ (G : List NEdge) (x : Nat), (∀ ed, ed ∈ F → fill x ed ∈ G) → ∀ w, w ∈ L → Path G from_ w x
+  complete : ∀ (G : List NEdge) (x : Nat), (∀ ed, ed ∈ F → fill x ed ∈ G) → ∀ w, w ∈ L → NPath G from_ w x
   coreach : ∀ (G : List NEdge) (x : Nat), (∀ ed, ed ∈ F → fill x ed ∈ G) →
-    ∀ n, base ≤ n → n < base + c → ∃ v, Path G n v x
+    ∀ n, base ≤ n → n < base + c → ∃ v, NPath G n v x
   sound : ∀ (K : Language Nat) (lab : Nat → Language Nat), from_ < base → L * K ≤ lab from_ →
     ∃ lab' : Nat → Language Nat, (∀ n, n < base → lab' n = lab n) ∧ ∀ ed, ed ∈ F → EdgeOk lab' K ed
 
@@ -146,7 +146,7 @@ theorem IsFrag.name (f base t : Nat) : IsFrag [⟨f, some t, none⟩] f base 0 (
   complete := by
     intro G x hG w hw
     rw [(mem_lang_sym t w).1 hw]
-    have := Path.single (G := G) (fill x ⟨f, some t, none⟩) (hG _ (by simp)) (m := x) (by simp)
+    have := NPath.single (G := G) (fill x ⟨f, some t, none⟩) (hG _ (by simp)) (m := x) (by simp)
     simpa using this
   coreach := by intro G x _ n h1 h2; omega
   sound := by
@@ -170,7 +170,7 @@ theorem IsFrag.eps (f base : Nat) : IsFrag [⟨f, none, none⟩] f base 0 1 wher
   complete := by
     intro G x hG w hw
     rw [(Language.mem_one w).1 hw]
-    have := Path.single (G := G) (fill x ⟨f, none, none⟩) (hG _ (by simp)) (m := x) (by simp)
+    have := NPath.single (G := G) (fill x ⟨f, none, none⟩) (hG _ (by simp)) (m := x) (by simp)
     simpa using this
   coreach := by intro G x _ n h1 h2; omega
   sound := by
@@ -386,11 +386,11 @@ theorem IsFrag.thenLoop {F1 F2 : List NEdge} {f b c1 c2 : Nat} {L1 L2 : Language
     have hG2 : ∀ ed, ed ∈ F2 → fill b ed ∈ G := fun ed hed => by
       have := hG (fill b ed) (List.mem_append_left _ (List.mem_append_right _ (List.mem_map_of_mem hed)))
       rwa [fill_fill] at this
-    have hexit : Path G b [] x := by
-      have := Path.single (G := G) (fill x ⟨b, none, none⟩) (hG _ (by simp)) (m := x) (by simp)
+    have hexit : NPath G b [] x := by
+      have := NPath.single (G := G) (fill x ⟨b, none, none⟩) (hG _ (by simp)) (m := x) (by simp)
       simpa using this
     have p1 := h1.complete G b hG1 u hu
-    have ploopAll : ∀ S : List (List Nat), (∀ z, z ∈ S → z ∈ L2) → Path G b S.flatten b := by
+    have ploopAll : ∀ S : List (List Nat), (∀ z, z ∈ S → z ∈ L2) → NPath G b S.flatten b := by
       intro S
       induction S with
       | nil => intro _; exact .nil b
@@ -411,8 +411,8 @@ theorem IsFrag.thenLoop {F1 F2 : List NEdge} {f b c1 c2 : Nat} {L1 L2 : Language
     have hG2 : ∀ ed, ed ∈ F2 → fill b ed ∈ G := fun ed hed => by
       have := hG (fill b ed) (List.mem_append_left _ (List.mem_append_right _ (List.mem_map_of_mem hed)))
       rwa [fill_fill] at this
-    have hexit : Path G b [] x := by
-      have := Path.single (G := G) (fill x ⟨b, none, none⟩) (hG _ (by simp)) (m := x) (by simp)
+    have hexit : NPath G b [] x := by
+      have := NPath.single (G := G) (fill x ⟨b, none, none⟩) (hG _ (by simp)) (m := x) (by simp)
       simpa using this
     by_cases heq : n = b
     · subst heq; exact ⟨_, hexit⟩
@@ -626,7 +626,7 @@ theorem nfaState_size (e : Expr) : (nfaState e).size = cnt e + 2 := by
 /-- **stage 1**: the words read along the paths of the finished NFA from node 0 to the accepting node
     (the last node, `cnt e + 1`) are exactly the words of the expression -/
 theorem nfa_correct (e : Expr) (h : e.wf = true) (w : List Nat) :
-    Path (nfaState e).edges 0 w (cnt e + 1) ↔ w ∈ e.toRE.lang := by
+    NPath (nfaState e).edges 0 w (cnt e + 1) ↔ w ∈ e.toRE.lang := by
   have hF := frag_isFrag e 0 1 h
   rw [nfaState_edges]
   constructor
@@ -647,7 +647,7 @@ theorem nfa_correct (e : Expr) (h : e.wf = true) (w : List Nat) :
 
 /-- every node of the finished NFA reaches the accepting node -/
 theorem nfa_coreach (e : Expr) (h : e.wf = true) (n : Nat) (hn : n < cnt e + 2) :
-    ∃ v, Path (nfaState e).edges n v (cnt e + 1) := by
+    ∃ v, NPath (nfaState e).edges n v (cnt e + 1) := by
   have hF := frag_isFrag e 0 1 h
   rw [nfaState_edges]
   have hG : ∀ ed, ed ∈ frag e 0 1 → fill (cnt e + 1) ed ∈ (frag e 0 1).map (fill (cnt e + 1)) :=
